@@ -246,7 +246,8 @@ theorem notify_once_no_response (fx : Fixes) (c : Cfg) (s : Sess) (msg : ClientM
 
 /-! ## (4) histories: any number of clients, requests in flight, time passing -/
 
-/-- At every moment of every history, for every connection and non-zero id: responses already
+/-- At every moment of every history, for every connection and non-zero id (as the envelope carries
+it: the wire id mod 2^32, which is the wire id itself below 2^32 — D19): responses already
 written + responses still in flight = requests sent.  In particular never more responses than
 requests (no duplicate, no response to a request that was not made). -/
 theorem history_conservation (c : Cfg) (ops : List Op) (cn i : Nat) (hi : i ≠ 0) :
@@ -325,16 +326,35 @@ example : (run fixed c0 St.init [.req s1 ⟨5, "chat.zoo.slow", .valid 1⟩, .re
     [(7, 5, .data "chat-1" "zoo" "slow" 1), (8, 5, .data "gate-1" "zoo" "late" 2), (7, 6, .error)] := by decide
 
 -- the conditional theorems instantiated (their hypotheses are satisfiable)
-example := request_served_by_target c0 s1 ⟨5, "chat.zoo.echo", .valid 3⟩ (by decide) "chat-1" "zoo" "echo" 3 .ok (by decide)
-example := response_origin_is_target c0 s1 ⟨5, "chat.zoo.echo", .valid 3⟩ (by decide) 0 7 5 "chat-1" "zoo" "echo" 3 (by decide)
-example := unserviceable_gets_error c0 s0 ⟨5, "chat.zoo.echo", .valid 3⟩ (by decide) (by decide)
-example := no_target_gets_error c0 ⟨9, some "chat-7"⟩ ⟨5, "chat.zoo.echo", .valid 3⟩ (by decide) (by decide)
-example := unknown_method_gets_error c0 s1 ⟨5, "chat.zoo.nosuch", .valid 3⟩ (by decide) (by decide)
-example := request_to_notify_method_gets_error c0 s1 ⟨5, "gate.zoo.tell", .valid 3⟩ (by decide) .ok (by decide)
-example := malformed_route_gets_error c0 s1 ⟨5, "gate.zoo.echo.x", .valid 3⟩ (by decide) (by decide) (by decide)
-example := handler_failure_gets_error c0 s1 ⟨5, "hall.zoo.fail", .valid 3⟩ (by decide) "hall-1" "zoo" "fail" 3 .fail (by decide) (.inl rfl)
+example := request_served_by_target c0 s1 ⟨5, "chat.zoo.echo", .valid 3⟩ (by decide) (by decide) "chat-1" "zoo" "echo" 3 .ok (by decide)
+example := response_origin_is_target c0 s1 ⟨5, "chat.zoo.echo", .valid 3⟩ (by decide) (by decide) 0 7 5 "chat-1" "zoo" "echo" 3 (by decide)
+example := unserviceable_gets_error c0 s0 ⟨5, "chat.zoo.echo", .valid 3⟩ (by decide) (by decide) (by decide)
+example := no_target_gets_error c0 ⟨9, some "chat-7"⟩ ⟨5, "chat.zoo.echo", .valid 3⟩ (by decide) (by decide) (by decide)
+example := unknown_method_gets_error c0 s1 ⟨5, "chat.zoo.nosuch", .valid 3⟩ (by decide) (by decide) (by decide)
+example := request_to_notify_method_gets_error c0 s1 ⟨5, "gate.zoo.tell", .valid 3⟩ (by decide) (by decide) .ok (by decide)
+example := malformed_route_gets_error c0 s1 ⟨5, "gate.zoo.echo.x", .valid 3⟩ (by decide) (by decide) (by decide) (by decide)
+example := handler_failure_gets_error c0 s1 ⟨5, "hall.zoo.fail", .valid 3⟩ (by decide) (by decide) "hall-1" "zoo" "fail" 3 .fail (by decide) (.inl rfl)
 example := front_answers_iff_own_type c0 s1 "gate" ⟨"gate", true⟩ (by decide) rfl
 example := (history_exactly_one c0 [.req s1 ⟨5, "chat.zoo.late", .valid 1⟩, .req s1 ⟨0, "chat.zoo.tell", .valid 2⟩] 45000 (by decide)).2 7 5 (by decide)
+
+/-! ## D19 (known finding `C02/request-id-truncated`): ids of 2^32 and above -/
+
+/-- id 2^32+5 on a serviceable forwarded route is answered with id 5; id 2^32 on a serviceable
+front-local route is handled as a notification: the handler runs, nothing is ever written. -/
+theorem d19_witness :
+    serve c0 s1 ⟨4294967301, "chat.zoo.echo", .valid 3⟩ =
+      [.invoke "chat-1" "zoo" "echo" 3, .respond 0 7 5 (.data "chat-1" "zoo" "echo" 3)] ∧
+    serve c0 s1 ⟨4294967296, "gate.zoo.echo", .valid 3⟩ = [.invoke "gate-1" "zoo" "echo" 3] := by
+  decide
+
+theorem request_one_response_full_fails : ¬ RequestOneResponse := by
+  intro h
+  obtain ⟨d, res, hr⟩ := h c0 s1 ⟨4294967296, "gate.zoo.echo", .valid 3⟩ (by decide)
+  rw [d19_witness.2] at hr
+  simp [responses] at hr
+
+example := request_one_response_partial c0 s1 ⟨4294967295, "chat.zoo.echo", .valid 3⟩ (by decide) (by decide)
+example := (request_answered_with_truncated_id c0 s1 ⟨18446744073709551615, "hall.zoo.echo", .valid 3⟩).1 (by decide)
 
 /-! ## what the two repairs changed (pre-fix behaviour kept as `serveWith ⟨false, _⟩` / `⟨_, false⟩`) -/
 
